@@ -222,7 +222,7 @@ pub fn run(ctx: &mut Ctx) -> Result<(), Violation> {
         ctx.stage(&format!("api-all-functions-k{}", k), true, r)?;
     }
 
-    let cases = ctx.tier.pick(100_000, 8_000_000);
+    let cases = ctx.tier.cases(100_000, 8_000_000);
     let r = par_random(ctx, "random-api", cases, 80, |tape, st| {
         let mut t = Tape::new(tape);
         let mut f = gen_fun(&mut t, 8, 12);
